@@ -586,7 +586,13 @@ func (s *Sim) Step(allowBig bool) bool {
 		// over-limit write
 		return s.Write(s.Coord(), 255*4096-3+tp.Choose(5000))
 	default:
-		s.Clock.T = s.Clock.T.Add(time.Duration(tp.Choose(5000)) * time.Millisecond)
+		if tp.Bool(1, 4) {
+			// the wall clock is stepped back (NTP correction, wrong time at boot)
+			PClockBack.Hit()
+			s.Clock.T = s.Clock.T.Add(-time.Duration(1+tp.Choose(100000)) * time.Second)
+		} else {
+			s.Clock.T = s.Clock.T.Add(time.Duration(tp.Choose(5000)) * time.Millisecond)
+		}
 		return true
 	}
 }
@@ -605,3 +611,5 @@ func (s *Sim) Fingerprint() uint64 {
 	}
 	return h
 }
+
+var PClockBack = simrt.NewProbe("region.clock.stepped.backwards.between.operations")
